@@ -79,7 +79,13 @@ class C06(Prop):
     id = "C06"
     thorough_rounds = 10   # thorough tier: this many independently seeded rounds of the random generators (duplicates dropped)
     modules = ["H3.Props.C06", "H3.Lemmas.GenAgreeFrame", "H3.Lemmas.GenAgreeReq", "H3.Lemmas.GenAgreeCtl"]
-    engines = ["adv", "flt"]
+    engines = ["adv", "flt", "wt"]
+    # every case line runs in well under a second (the longest, a million minimal frames, 0.2 s): a harness process
+    # that does not come back within 10 s (or 5 ms per line of the batch) is executing a line that never returns -
+    # recorded as `process-hang` (a failing input by itself) and the run continues behind it
+    batch_timeout = 10
+    batch_line_allowance = 0.005
+    batch_max_hangs = 3     # per batch of 2000 lines; the rest of such a batch is reported as not executed
     design_ref = "DESIGN.md section 7, C06"
     level_text = ("Lean theorems: no step of the receive-path models (frame layer, request receive machine, uni-stream type "
                   "resolution, control machine, QPACK/field parsing) returns the explicit panic outcome under the documented call "
@@ -103,6 +109,10 @@ class C06(Prop):
     # ---- projection: the only observables are `panic` and calls left pending on something that has ended
     def project(self, line, impl):
         ops = line.split()[3:]
+        if impl in ("hang", "abort"):
+            # the harness process did not come back from this line / died on it (vlib says the same in the main run;
+            # the shrinker and the replay come through here)
+            return "process-" + impl
         if line.startswith("wt "):
             # WebTransport stream I/O (engine wt): C19's observables, which the Lean driver predicts in full -
             # a panic or a call left waiting where the model says it returns is then a difference
@@ -164,11 +174,11 @@ class C06(Prop):
 
     def project_all(self, lines, impls):
         from props import faults
-        res = [None] * len(lines)
-        idx = [i for i, l in enumerate(lines) if l.startswith("flt")]
+        res = [("process-" + o) if o in ("hang", "abort") else None for o in impls]
+        idx = [i for i, l in enumerate(lines) if l.startswith("flt") and res[i] is None]
         for i, p in zip(idx, faults.project_all([lines[i] for i in idx], [impls[i] for i in idx])):
             res[i] = p
-        idx = [i for i, l in enumerate(lines) if l.startswith("wt ")]
+        idx = [i for i, l in enumerate(lines) if l.startswith("wt ") and res[i] is None]
         if idx:
             from props import c19
             for i, p in zip(idx, c19.PROP.project_all([lines[i] for i in idx], [impls[i] for i in idx])):
@@ -182,6 +192,11 @@ class C06(Prop):
         """histogram key: role + the kinds of results the API calls produced + close codes (+ the faults that fired)"""
         if " | " not in raw:
             return raw[:20]
+        if line.startswith("wt "):
+            kinds = sorted({m.group(1) + ":" + m.group(2) for m in
+                            re.finditer(r"w\d+s?\.(r[aft][ft]?)=data:[^ ]*?:(end|more|err:rterm|err:conn)", raw)})
+            pend = re.search(r"pending=\[([^\]]*)\]", raw)
+            return "wt %s pending=[%s]" % (",".join(kinds), re.sub(r"\d+", "", pend.group(1)) if pend else "")
         if line.startswith("flt"):
             return "flt %s" % line.split()[1] + " fired=[%s]" % ",".join(
                 sorted(set(re.sub(r"\d+", "", t[1:]) for t in raw.split(" | ")[0].split() if t.startswith("!"))))
@@ -200,6 +215,8 @@ class C06(Prop):
     def trivial_raw(self, line, raw):
         if raw.startswith("bad-op"):
             return True
+        if line.startswith("wt "):
+            return "conn.WT=ok" not in raw
         if line.startswith("flt"):
             return not any(t.startswith("!") or t.startswith("close:") or "=err:" in t for t in raw.split(" | ")[0].split())
         trace = raw.split(" | ")[0].split()
@@ -406,6 +423,8 @@ class C06(Prop):
                         L.append("adv %s g1 %s" % (role, " ".join(base[:i] + [f] + base[i:])))
         # send calls left waiting for write credit / stream credit, then STOP_SENDING / RESET / close / timeout
         L += self.send_side_cases(rng, big)
+        # WebTransport stream reads through both AsyncRead faces, buffers filled across calls, adversarial chunking
+        L += self.wt_cases(rng, big)
         # whole connections whose transport fails, judged by the oracle H3.Spec.Faults (engine flt)
         from props import faults
         L += faults.cases(big, rng)
@@ -506,6 +525,59 @@ class C06(Prop):
                     L.append("adv client %s %s" % (cfg, " ".join(pre + reqs[:i] + [e] + reqs[i:])))
             for e in ends_conn[:2] + ["x%d:1" % (4 * bc)]:
                 L.append("adv client %s %s" % (cfg, " ".join(pre + reqs + late + [e, "snd.R:GET:%s:-" % GET_URI])))
+        return L
+
+    def wt_cases(self, rng, big):
+        """Engine `wt` (C19's interpreter and Lean driver; projection = C19's observables, so a panic, a call left
+        waiting, or a wrong byte is a difference).  A WebTransport bidi / uni stream of the peer carries 3-40 payload
+        bytes in chunks of the PEER's choosing; the application reads through tokio / futures `poll_read` - plain
+        (`rt` / `rf`: a fresh buffer per call) and in FILL mode (`rtf` / `rff`: one `ReadBuf` / the unfilled sub-slice
+        until the buffer is full, as `read_exact` does), buffer sizes chosen so that chunks cross the end of a partly
+        filled buffer; the read is issued before, between or after the deliveries; the stream then ends with FIN /
+        RESET, or the connection is closed / times out (possibly with data still queued)."""
+        from props import c19
+        L = []
+        n = 1500 if big else 500
+        for it in range(n):
+            bidi = rng.random() < 0.6
+            sid = 4 if bidi else 6
+            cfg = "g0,wt=1,ec=1,dg=1" + (",seed=%d" % rng.randrange(1, 1000) if rng.random() < 0.5 else "")
+            pre = ["o2", "s2:" + c19.PEER_SETTINGS, "o0", "s0:" + c19.CONNECT, "conn.WT", "o%d" % sid]
+            hdr = "404100" if bidi else "405400"
+            payload = [rng.getrandbits(8) for _ in range(rng.choice([3, 5, 8, 12, 12, 17, 40]))]
+            # the peer's chunking
+            chunks, i = [], 0
+            while i < len(payload):
+                k = rng.choice([1, 2, 3, 3, 5, 9, 13])
+                chunks.append(payload[i:i + k])
+                i += k
+            ev = ["s%d:%s" % (sid, hx(c)) for c in chunks]
+            if rng.random() < 0.3:
+                ev[0] = "s%d:%s%s" % (sid, hdr, hx(chunks[0]))     # header and first bytes in one chunk
+                head = []
+            else:
+                head = ["s%d:%s" % (sid, hdr)]
+            acc = "conn.ab" if bidi else "conn.au"
+            sizes = lambda: ",".join(str(rng.choice([1, 2, 4, 7, 8, 8, 10, 16, len(payload), len(payload) + 1]))
+                                     for _ in range(rng.randrange(1, 3)))
+            reads = []
+            for _ in range(rng.choice([1, 1, 2])):
+                m = rng.choice(["rtf", "rtf", "rtf", "rff", "rff", "rt", "rf"])
+                calls = ":%d" % rng.randrange(1, 4) if rng.random() < 0.3 else ""
+                reads.append("w%d.%s:%s%s" % (sid, m, sizes(), calls))
+            end = rng.choice(["f%d" % sid] * 4 + ["r%d:%d" % (sid, rng.choice([0, 7, 268]))] * 2 + ["C0", "C256", "T"])
+            tail = ev + [end]
+            # reads are placed anywhere behind the accept (which needs the complete header)
+            first = rng.randrange(0, 2) if not head else 0
+            body = tail[:first] + [acc] + tail[first:] if not head else [acc] + tail
+            if head and rng.random() < 0.5:
+                body = tail[:1] + [acc] + tail[1:]
+            for r in reads:
+                j = body.index(acc) + 1
+                body.insert(rng.randrange(j, len(body) + 1), r)
+            if end[0] in "CT" and rng.random() < 0.5:
+                body.append("w%d.%s:4" % (sid, rng.choice(["rtf", "rff", "rt", "rf", "ra"])))
+            L.append("wt server %s %s" % (cfg, " ".join(pre + head + body)))
         return L
 
     def fault_menu(self, role, sids, rng, n):
@@ -623,9 +695,25 @@ class C06(Prop):
         return res
 
     def shrink_candidates(self, line):
+        if line.startswith("wt "):
+            # everything up to and including the accept of the stream stays (session, stream header): a line whose
+            # tasks do not exist, or whose accept waits inside a header, is outside the engine's domain; the reads,
+            # the later deliveries and the ending are what shrinks
+            w = line.split()
+            ops = w[3:]
+            k = max([i for i, o in enumerate(ops) if o in ("conn.ab", "conn.au")] + [-1])
+            return [" ".join(w[:3] + ops[:i] + ops[i + 1:]) for i in range(k + 1, len(ops))]
         w = line.split()
         out = []
         ops = w[3:]
+        # coarse first: everything that happens on one stream; the second half; then single ops
+        sids = sorted({m.group(1) for o in ops for m in [re.match(r"^(?:[osfrx]|gw|q|!\w\w)(\d+)", o)] if m}, key=int)
+        for sid in sids:
+            rest = [o for o in ops if not re.match(r"^(?:[osfrx]|gw|q|!\w\w)%s(?!\d)" % sid, o)]
+            if len(rest) < len(ops):
+                out.append(" ".join(w[:3] + rest))
+        if len(ops) > 6:
+            out.append(" ".join(w[:3] + ops[:len(ops) // 2]))
         for i in range(len(ops)):
             out.append(" ".join(w[:3] + ops[:i] + ops[i + 1:]))
         return out
